@@ -160,6 +160,17 @@ Example C19_ex_check :
   end = true.
 Proof. vm_compute. reflexivity. Qed.
 
+(* the hypotheses of C19_label_is_image_address_partial are met by the labels of the example:
+   base 512, "Start" followed by the byte at offset 0, the two instances of "a.b" at offsets 4 and 8 *)
+Example C19_ex_address_hypotheses :
+  let placed := [(mkSym "a.mac" "Start" 512, 0%nat); (mkSym "i.mac" "a.b" 516, 4%nat); (mkSym "i.mac" "a.b" 520, 8%nat)] in
+  (forall s off, In (s, off) placed -> In s (ordinary ex_pm ex_es))
+  /\ (forall s off, In (s, off) placed -> s_value s = (512 + Z.of_nat off)%Z).
+Proof.
+  split; intros s off H; simpl in H;
+    repeat (destruct H as [H|H]; [inversion H; subst; vm_compute; tauto|]); destruct H.
+Qed.
+
 Example C19_ex_formats :
   no_char "." "bin" /\ no_char "." "raw" /\ no_char "." "bk_wav" /\ no_char "." "bk_turbo_wav".
 Proof. simpl. repeat split; discriminate. Qed.
